@@ -843,3 +843,16 @@ for _c, _nm in ((7, "name_extends_requesters"), (8, "name_is_prefix_of_requester
     O(id="C20.passwd_account_whose_" + _nm, props=["C20", "C08", "C02"], entry="harness_passwd", defines=["PWCASE=%d" % _c], reach=["refused"], functions=_AF,
       symbolic="(concrete requester/target)", assumes=["the requester's own authentication succeeds"],
       bounds="database of 6 users; users 'u1' and 'u1x' (one name a prefix of the other), neither admin", **_scn_auth)
+
+O(id="C03.self_request_bystander", props=["C03", "C05", "C07"], entry="harness_self_request_bystander", functions=_RF + ["remove_peer_from_routes", "remove_peer_from_routing_table"],
+  symbolic="set value, reply payload", assumes=["set-up succeeds"], bounds="skeleton: O add 's'; O set 's' (routed to itself); bystander C disconnects; O replies", **_scn_route)
+
+# the edge of the 32-slot hop window and displacement (find_closer_entry): not reachable at order 2/3
+for _lay, _fill, _lnm, _rch in ((0, 31, "last_slot_free", ["inserted"]), (0, 32, "full", ["refused"]), (1, 32, "displacement", ["inserted"]), (2, 32, "free_slot_beyond_window", ["inserted"])):
+    for _base in (0, 100):
+        O(id="C17.window_%s_base%d" % (_lnm, _base), props=["C17", "C04"], harness="harness/c17_window.c", entry="harness_window",
+          defines=["LAYOUT=%d" % _lay, "BASE=%d" % _base, "FILL=%d" % _fill], unwind=130, flags=["--max-field-sensitivity-array-size", "256"], reach=_rch,
+          functions=["hashtable_put_T", "find_closer_entry_T", "hashtable_get_T", "hashtable_remove_T (DECLARE_HASHTABLE_UINT32, order 7)"],
+          symbolic="stored value (the layout is concrete per obligation)", stubs=["hs_hash32 replaced by a table key -> bucket"],
+          assumes=[], bounds="order 7 (128 slots), concrete layout around bucket %d%s, %d keys in the window, uint32 keys" % (_base, " (wraps around the table end)" if _base else "", _fill),
+          timeout={"quick": 600, "thorough": 3000})
